@@ -481,5 +481,51 @@ pub fn run(out: &mut Out, seed: u64, thorough: bool, replay: Option<&str>) {
         net.out.mark_distinct(net.rng.0 ^ 0x1a7e ^ round as u64);
         net.s.shutdown();
     }
+    // ---- a seed server whose own bootstrap list is dead (C13): the servers that bootstrap from it
+    //      enter its signed-peers table only; its own lookups must still reach them, so that its
+    //      main table fills and it becomes part of the knows-graph
+    for (joiners, public) in if thorough { vec![(2usize, false), (5, false), (5, true), (12, false)] } else { vec![(3usize, false)] } {
+        t0 += 100_000_000_000_000;
+        let mut net = Net::new(out, rng.next());
+        net.begin(t0);
+        let dead = SocketAddrV4::new(Ipv4Addr::new(10, 9, 9, 9), 6881);
+        let seed_addr = SocketAddrV4::new(ip_of(0, public), 6881);
+        net.add_node("s", &[dead], ip_of(0, public), public, rng.next() % 1_000_000 + 1);
+        net.run_for(300 * MS, 5 * MS);
+        for i in 1..=joiners {
+            net.add_node("s", &[seed_addr], ip_of(i, public), public, rng.next() % 1_000_000 + 1);
+            net.run_for(300 * MS, 5 * MS);
+        }
+        net.run_for(6 * SEC, 10 * MS);
+        net.run("n0 snap".to_string());
+        let known = net.s.nodes[0].last_snapshot.as_ref().map(|s| s.routing_table.len()).unwrap_or(0);
+        net.out.count(&format!("dead-list-seed:knows={}", known.min(3)));
+        if known == 0 {
+            net.out.violation("C13", "seed-with-dead-list-stays-empty", format!("{joiners} servers bootstrapped from node 0 (whose own bootstrap list is unreachable) and 6 s later its routing table is still empty: it is not part of the knows-graph"));
+        }
+        // after its next table refresh (a find_node of its own id, seeded from both tables) the seed knows
+        // every joiner, and a lookup started on it queries them all.  (Before the refresh this is not
+        // promised: requesters of a node that has a bootstrap list enter its signed-peers table only.)
+        net.run_for(16 * 60 * SEC, SEC);
+        net.run_for(3 * SEC, 10 * MS);
+        let before = net.requests.len();
+        let t = Id::from_bytes(rng.id20()).expect("id");
+        net.api(0, format!("get_peers ih={}", hex(t.as_bytes())));
+        net.settle(20 * SEC, 10 * MS);
+        let asked: HashSet<SocketAddrV4> = net.requests[before..].iter().filter(|(i, _, k)| *i == 0 && k.contains("/get_peers/")).map(|(_, a, _)| *a).collect();
+        if joiners <= 20 {
+            for j in 1..=joiners {
+                if !asked.contains(&SocketAddrV4::new(ip_of(j, public), 6881)) {
+                    net.out.violation("C13", "server-not-queried", format!("a lookup started on the seed node did not query server {j} of {joiners}"));
+                    break;
+                }
+            }
+        }
+        for i in 0..net.s.nodes.len() {
+            net.run(format!("n{i} snap"));
+        }
+        net.out.mark_distinct(net.rng.0 ^ 0xdead ^ joiners as u64);
+        net.s.shutdown();
+    }
     out.sample("case mnet: node 0 (first, no bootstrap), node i bootstraps from node 0; n<i> step from=<addr> re=<key> msg=<hex> delivers one datagram; put on the last node, get on another".into());
 }
